@@ -629,6 +629,57 @@ def run_table(case):
   return R(None, True, "table")
 
 
+# ---------------------------------------------------------------- long operands
+def gen_ops_long(run):
+  for op in OpMethod.get("all"):
+    if op.symbol == "@":
+      continue
+    for ok in (("none",) if op.arity == 1 else ("stream", "list", "generator", "scalar")):
+      for n, m in ((300, 300), (257, 64), (65, 1000)):
+        yield (op.dname, ok, n, m)
+
+
+def run_op_long(case):
+  """Hundreds of elements (and unequal long lengths): one output per position up to the shorter operand."""
+  dname, ok, n, m = case
+  op = next(OpMethod.get(dname))
+  mine, theirs = VALUES["int"]
+  left = [mine[i % len(mine)] + (i % 7) for i in range(n)]
+  if op.arity == 1:
+    res = getattr(Stream(list(left)), dname)()
+    exp = [try_elem(UNARY[op.symbol], a) for a in left]
+  else:
+    right_vals = [theirs[i % len(theirs)] + (i % 5) for i in range(m)]
+    if ok == "scalar":
+      other, right = theirs[1], [theirs[1]] * n
+    else:
+      right = right_vals
+      other = {"stream": lambda: Stream(list(right)), "list": lambda: list(right),
+               "generator": lambda: (v for v in list(right))}[ok]()
+    f = SYMBOL[op.symbol]
+    res = getattr(Stream(list(left)), dname)(other)
+    L = min(len(left), len(right))
+    exp = [try_elem(f, right[i], left[i]) if op.rev else try_elem(f, left[i], right[i]) for i in range(L)]
+  exp_items, exp_exc = [], None
+  for tag, v in exp:
+    if tag == "e":
+      exp_exc = v
+      break
+    exp_items.append(v)
+  got, exc = consume(res, len(exp_items) + 3)
+  if exc == "limit" or len(got) != len(exp_items):
+    return bad("op:length-long", "result must end with the shortest iterable operand (long operands)",
+               len(exp_items), len(got) if exc != "limit" else "longer", True)
+  k = next((i for i, (g, e) in enumerate(zip(got, exp_items)) if not same_val(g, e)), None)
+  if k is not None:
+    return bad("op:value-long", "i-th output is not the operator applied to the i-th elements (long operands)",
+               {"op": dname, "i": k, "value": repr(exp_items[k])}, repr(got[k]), True)
+  if exc != exp_exc:
+    return bad("op:exception", "an element-level error must surface as the same exception type",
+               {"after": len(exp_items), "exception": exp_exc}, {"after": len(got), "exception": exc}, True)
+  return R(None, True, (op.symbol, ok))
+
+
 KINDS = OrderedDict([
   ("table", Kind(gen_table, run_table, rule="operator table: 35 methods, all installed on Stream")),
   ("ops", Kind(gen_ops, run_op, chunk=500, rule="operator x route x other kind x lengths x element type")),
@@ -637,4 +688,5 @@ KINDS = OrderedDict([
   ("trees", Kind(gen_trees, run_tree, chunk=500, rule="expression trees; non-trivial: nested")),
   ("functions", Kind(gen_funcs, run_func, chunk=20, rule="broadcast function x container kind x route")),
   ("secondary", Kind(gen_secondary, run_secondary, chunk=8, rule="secondary parameters and the elementwise decorator itself")),
+  ("ops-long", Kind(gen_ops_long, run_op_long, chunk=20, rule="every operator x other kind on operands of 300 / 257 vs 64 / 65 vs 1000 elements")),
 ])
